@@ -41,6 +41,7 @@ def run(ctx, rep):
         check_keyrefuse(crate, rep, cfg)
         check_sort(crate, rep, cfg)
         check_elem(crate, rep, cfg)
+        check_enum(crate, rep, cfg)
 
 
 def check_cast(crate, rep, cfg):
@@ -233,3 +234,50 @@ def check_elem(crate, rep, cfg):
                     + ("" if ok else " — VIOLATED: that impl forwards deserialize_option / deserialize_enum to deserialize_any: `Some(..)` and enum values nested here no longer "
                                      "round-trip"))
     rep.floor("C19.ELEM", "Seq/MapDeserializer constructions in the bridge [%s]" % cfg, n, 2)
+
+
+def check_enum(crate, rep, cfg):
+    """C19.ENUM — the serializer writes `E::V(x)` as the one-entry map {"V": x} and a unit variant as the string "V". Reading back, the payload
+    handed to the variant access is `Some(the entry's value)` whenever the encoding was a map — unconditionally, whatever that value is (a
+    `none` payload is `V(None)` / `V(())`, not "no payload") — and `None` only for the string form."""
+    cands = [b for p_, b in crate.bodies.items() if p_.endswith("::deserialize_enum") and "ValueDeserializer" in p_]
+    if len(cands) != 1:
+        rep.anchor_missing("C19.ENUM", "ValueDeserializer::deserialize_enum (%d)" % len(cands))
+        return
+    b = cands[0]
+    rep.analysed(b)
+    tr = Tracer(b)
+    ef = EdgeFacts(b, crate)
+    aggs = list(find_aggs(b, "value::de::EnumDeserializer", "EnumDeserializer"))
+    ok = len(aggs) == 1
+    why = "construction of EnumDeserializer not found"
+    if ok:
+        rv = aggs[0][2]["rv"]
+        ls = [l for l in tr.operand(rv["ops"][rv["fields"].index("params")]) if l.kind != "cycle"]
+        ok = bool(ls)
+        # which blocks are under the Map / String arm of `match self.value.inner`
+        arm = {}
+        for sb in sorted(b.reachable):
+            if b.term(sb)["k"] != "switch":
+                continue
+            for tgt, fl in ef.facts_for_switch(sb).items():
+                for f in fl:
+                    if f[0] == "variant" and f[1].endswith("ValueInner") and f[4] and len(f[3]) == 1 and tgt != sb:
+                        arm.setdefault(next(iter(f[3])), set()).update(x for x in b.reach_from(tgt) if b.dominates(tgt, x))
+        n_some = 0
+        for l in ls:
+            if not (l.kind == "agg" and l.detail[1] == "std::option::Option"):
+                ok, why = False, "the payload is computed (%s) instead of being Some(value) / None by encoding" % leaf_str(l)
+                continue
+            if l.detail[2] == "Some":
+                n_some += 1
+                vl = [x for x in tr.operand(b.blocks[l.detail[3]]["s"][l.detail[4]]["rv"]["ops"][0]) if x.kind != "cycle"]
+                if not (l.detail[3] in arm.get("Map", set()) and vl and all(x.kind == "call" and x.detail[0].endswith("Iterator::next") or
+                                                                          (x.kind == "call" and x.detail[0].endswith("::iter")) for x in vl)):
+                    ok, why = False, "Some(..) does not wrap the map entry's value under the Map arm"
+            elif l.detail[3] in arm.get("Map", set()):
+                ok, why = False, "a map-encoded variant can lose its payload (None built under the Map arm)"
+        if ok and n_some != 1:
+            ok, why = False, "%d Some(..) payloads" % n_some
+    rep.add("C19.ENUM", "C19.ENUM:deserialize_enum:map-form-always-carries-its-value", ok, b.where(aggs[0][0]) if aggs else b.where(0), "deserialize_enum hands the variant access "
+            "Some(entry value) for the map encoding, unconditionally, and None only for the string encoding" + ("" if ok else " — VIOLATED: " + why))
